@@ -356,29 +356,40 @@ def modCollapse (l r : Arg) : Bool :=
     | _ => false
   | none => false
 
+/-- `(lhs_const, lhs_inv)`: the lhs itself if it is a constant, else what `search(arg_ty, lhs, false)` finds -/
+def mergeL (op : BinOp) (l : Arg) : Find :=
+  match cval l with
+  | some c => .found c false
+  | none => findC op l false
+
+/-- `rhs_pre_inv` -/
+def preInv (op : BinOp) : Bool := op == .sub || op == .div
+
+/-- `(rhs_arg, rhs_inv)`: the rhs itself if it is a constant; the rhs of a division is not searched -/
+def mergeR (op : BinOp) (r : Arg) : Find :=
+  match cval r with
+  | some c => .found c (preInv op)
+  | none => if op == .div then .none else findC op r (preInv op)
+
+/-- the tree after `*lhs_val = c` and the splice of the rhs constant, before the final `neutralize(arg)` -/
+def mergeTree (op : BinOp) (l r : Arg) (c : Int) : Arg :=
+  let l' := match cval l with
+    | some _ => Arg.const c
+    | none => setC op c l
+  match cval r with
+  | some _ => l'
+  | none => Arg.bin op l' (dropC op r)
+
 /-- the last `else` branch of the binary arm of `simplify_raw` -/
 def merge (op : BinOp) (l r : Arg) : Res (Bool × Arg) :=
-  let lf : Find := match cval l with
-    | some c => .found c false
-    | none => findC op l false
-  let pre : Bool := op == .sub || op == .div
-  let rf : Find := match cval r with
-    | some c => .found c pre
-    | none => if op == .div then .none else findC op r pre
-  match lf, rf with
+  match mergeL op l, mergeR op r with
   | .panic, _ => .panic
   | _, .panic => .panic
   | .found c1 s1, .found c2 s2 =>
     match combine op s1 s2 c1 c2 with
     | .error k => .err (.overflow k)
     | .ok c =>
-      let l' := match cval l with
-        | some _ => Arg.const c
-        | none => setC op c l
-      let a' := match cval r with
-        | some _ => l'
-        | none => Arg.bin op l' (dropC op r)
-      match neutralize a' with
+      match neutralize (mergeTree op l r c) with
       | .ok (_, a) => .ok (true, a)
       | .err e => .err e
       | .panic => .panic
